@@ -300,6 +300,8 @@ class Interp:
             if isinstance(v, ast.Constant):
                 return
             if isinstance(v, ast.Call) and is_logging_call(v):
+                if self.__dict__.get("log_hook") is not None:
+                    self.e_Call(v, env)
                 return
             if isinstance(v, ast.Yield):
                 env["__yield__"].append(self.eval(v.value, env) if v.value is not None else None)
@@ -716,6 +718,10 @@ class Interp:
 
     def e_Call(self, e, env):
         if is_logging_call(e):
+            hook = self.__dict__.get("log_hook")
+            if hook is not None and isinstance(e.func, ast.Attribute):
+                # a model wants to see what is logged (the shell writes snapshots through its logger)
+                hook(e.func.attr, [self.eval(a, env) for a in e.args])
             return None
         # super()
         if isinstance(e.func, ast.Name) and e.func.id == "super" and not e.args:
